@@ -15,6 +15,8 @@ import (
 
 // ForceCase: a small program run once (so that every task is cached), then forced.
 type ForceCase struct {
+	// ProjDir names the directory holding the spokfile ("" = proj)
+	ProjDir string   `json:"proj_dir,omitempty"`
 	NTasks  int      `json:"ntasks"`
 	Deps    [][2]int `json:"deps"`     // i depends on j (j > i)
 	FileDep []bool   `json:"file_dep"` // per task
@@ -25,6 +27,12 @@ type ForceCase struct {
 var forceNames = []string{"alpha", "bravo", "charlie"}
 
 func genForce(t *rapid.T) ForceCase {
+	c := genForceBody(t)
+	c.ProjDir = genProjDir(t)
+	return c
+}
+
+func genForceBody(t *rapid.T) ForceCase {
 	n := rapid.IntRange(1, 3).Draw(t, "ntasks")
 	c := ForceCase{NTasks: n}
 	for i := 0; i < n; i++ {
@@ -83,7 +91,7 @@ func (c ForceCase) closure() map[int]bool {
 }
 
 func execForce(s *ev.Shard, b *sandbox.Box, c ForceCase) *rp.Fail {
-	if err := b.Reset(); err != nil {
+	if err := b.ResetAs(c.ProjDir); err != nil {
 		return &rp.Fail{Sig: "harness", Msg: err.Error()}
 	}
 	src := c.source()
